@@ -293,7 +293,7 @@ var properties = map[string]*Property{
 			Quick:      Tier{Runs: 9000, BudgetS: 60},
 			Thorough:   Tier{Runs: 400000, BudgetS: 1200},
 		}},
-		Rule: "one case = (signer-reload) one seeded schedule of token issuing, JWKS reads and key-store rewrites with torn prefixes exposed at notifications, empty / garbage / certificate-only / unsupported-key (RSA-1024, Ed25519) / wrong-key-usage contents and duplicated root certificates, under the scheduler and the race detector; (robust-sim) one of: a sequence of 1-4 truncated (byte or line offset) or type-confused (one or two YAML nodes replaced by a value of another kind) rule sets through the real parser, processor and rule factory with a previously loaded rule that must keep answering; 1-3 requests whose remote answers are truncated, byte-flipped, type-confused or emptied and whose tokens are malformed, through the three entry points; 1-4 requests with odd paths and header values. Non-trivial/distinct = distinct traces / schedule signatures.",
+		Rule: "one case = (signer-reload) one seeded schedule of token issuing, JWKS reads and key-store rewrites with torn prefixes exposed at notifications, empty / garbage / certificate-only / unsupported-key (RSA-1024, Ed25519) / wrong-key-usage contents and duplicated root certificates, under the scheduler and the race detector; (reload-tls, reload-httpsig) the same reload plan against the TLS key store with concurrent certificate() calls and the http_message_signatures strategy with concurrent Apply/Keys; (provider-fs-conc) the file_system provider's event handling and a writer as two tasks with yield points inside provider.go; (robust-sim) one of: a sequence of 1-4 truncated (byte or line offset) or type-confused (one or two YAML nodes replaced by a value of another kind) rule sets through the real parser, processor and rule factory with a previously loaded rule that must keep answering; 1-3 requests whose remote answers are truncated, byte-flipped, type-confused or emptied and whose tokens are malformed, through the three entry points; 1-4 requests with odd paths and header values. Non-trivial/distinct = distinct traces / schedule signatures.",
 		Real: []string{"jwt signer, TLS key store and http_message_signatures hot reload, keystore, pkix", "file_system provider event handling with the writer interleaved inside it", "rule set parser, decoder, rule factory, repository", "all mechanisms on corrupted answers", "the three entry points incl. recovery middleware / interceptor"},
 		Stub: []string{"fsnotify watcher -> simulated watcher dispatching OnChanged as scheduler tasks", "remote parties with content-altering fault plan", "inotify events of the file_system provider (fed to ruleSetsChanged by a task)", "Redis file credentials and trust store reloads are not driven (the trust store has no hot reload; the Redis credentials file is YAML decoded into a plain struct)"},
 		Assumptions: []string{
